@@ -149,6 +149,7 @@ func init() {
 		pn := c.Const("x/conflict/types", "NoneOfTheProviders")
 		// tallies: Int.Add calls whose second arg is the stake (TotalStake) inside the counting loop
 		n := 0
+		tally := map[string]ssa.Value{}
 		ir.EachInstr(handle, func(in ssa.Instruction) {
 			call, ok := in.(*ssa.Call)
 			if !ok || ir.CalleeName(&call.Call) != "cosmossdk.io/math.Int.Add" || len(call.Call.Args) != 2 {
@@ -169,6 +170,7 @@ func init() {
 				return // totalVotes: counts every voter with a stake entry
 			}
 			n++
+			tally[opt] = call.Call.Args[0]
 			if opt == p0 || opt == p1 || opt == pn {
 				c.OK("C20e/HandleAndCloseVote/tally-under-result="+opt, c.P.InstrPos(in), "tally add dominated by Result=="+opt)
 			} else {
@@ -177,6 +179,56 @@ func init() {
 		})
 		if n != 3 {
 			c.Fail("C20e/HandleAndCloseVote/three-tallies", c.P.Pos(handle.Pos()), "expected exactly three option tallies each guarded by vote.Result==option, found "+itoa(n))
+		}
+		// the winner is picked by comparing the tallies of the options themselves:
+		// Provider0 under first>second ∧ first>none, Provider1 (otherwise) under second>none, else none
+		if len(tally) == 3 {
+			gtFact := func(gs []ir.Guard, a, b ssa.Value, want bool) bool {
+				for _, g := range gs {
+					v, edge := stripNot(g.If.Cond, g.Edge)
+					if cl, _ := callOfValue(v); cl != nil && ir.CalleeName(&cl.Call) == "cosmossdk.io/math.Int.GT" && edge == want {
+						if sameTally(cl.Call.Args[0], a) && sameTally(cl.Call.Args[1], b) {
+							return true
+						}
+					}
+				}
+				return false
+			}
+			nw := 0
+			ir.EachInstr(handle, func(in ssa.Instruction) {
+				phi, ok := in.(*ssa.Phi)
+				if !ok || phi.Type().String() != "int64" {
+					return
+				}
+				consts := map[string]int{}
+				for i, e := range phi.Edges {
+					consts[ir.Desc(e)] = i
+				}
+				if _, has0 := consts[p0]; !has0 {
+					return
+				}
+				if _, has1 := consts[p1]; !has1 {
+					return
+				}
+				if _, hasN := consts[pn]; !hasN {
+					return
+				}
+				nw++
+				g0 := guardsOfEdge(phi.Block().Preds[consts[p0]], phi.Block())
+				g1 := guardsOfEdge(phi.Block().Preds[consts[p1]], phi.Block())
+				gN := guardsOfEdge(phi.Block().Preds[consts[pn]], phi.Block())
+				ok0 := gtFact(g0, tally[p0], tally[p1], true) && gtFact(g0, tally[p0], tally[pn], true)
+				ok1 := gtFact(g1, tally[p1], tally[pn], true)
+				okN := gtFact(gN, tally[p1], tally[pn], false)
+				if ok0 && ok1 && okN {
+					c.OK("C20e/HandleAndCloseVote/winner=option-with-the-larger-tally", c.P.InstrPos(phi), "Provider0: first>second ∧ first>none; else Provider1: second>none; else none")
+				} else {
+					c.Fail("C20e/HandleAndCloseVote/winner=option-with-the-larger-tally", c.P.InstrPos(phi), "the winner is not selected by first>second ∧ first>none / second>none / otherwise none on the options' own tallies (P0:"+boolStr(ok0)+" P1:"+boolStr(ok1)+" none:"+boolStr(okN)+"): the option holding the majority may not be the one rewarded")
+				}
+			})
+			if nw != 1 {
+				c.Undecided("C20e: expected one winner merge in HandleAndCloseVote, found %d", nw)
+			}
 		}
 		// majority: rewards to winner and voters
 		credits := c.CallsByName(handle, true, "invoke:x/conflict/types.PairingKeeper.CreditStakeEntry")
@@ -205,6 +257,58 @@ func init() {
 		} else {
 			c.Fail("C20e/HandleAndCloseVote/majority=GT(total/2)x3", c.P.Pos(handle.Pos()), "expected three Int.GT(option, total.Quo(2)) comparisons, found "+itoa(gts)+" with divisor "+md)
 		}
+		// one vote per detection: the key the new vote is stored under is the key that was checked for an open vote
+		nIdx := 0
+		for _, f := range c.P.AllFuncs {
+			if !inProd(f) || !strings.HasPrefix(ir.FuncName(f), "x/conflict/keeper.") {
+				continue
+			}
+			allocs := c.CallsByName(f, false, "x/conflict/keeper.Keeper.AllocateNewConflictVote")
+			if len(allocs) == 0 {
+				continue
+			}
+			checked := ir.CallOf(allocs[0].Instr).Args[2]
+			ir.EachInstr(f, func(in ssa.Instruction) {
+				st, ok := in.(*ssa.Store)
+				if !ok {
+					return
+				}
+				fa, ok := st.Addr.(*ssa.FieldAddr)
+				if !ok || ir.FieldKey(fa) != "x/conflict/types.ConflictVote.Index" {
+					return
+				}
+				nIdx++
+				if st.Val == checked {
+					c.OK("C20a/"+ir.FuncName(f)+"/vote-stored-under-the-key-checked-for-duplicates", c.P.InstrPos(st), "same value as AllocateNewConflictVote's argument")
+				} else {
+					c.Fail("C20a/"+ir.FuncName(f)+"/vote-stored-under-the-key-checked-for-duplicates", c.P.InstrPos(st), "the new vote's Index ("+trunc(ir.Desc(st.Val), 80)+") is not the key that was checked for an already open vote ("+trunc(ir.Desc(checked), 80)+"): the same detection can open a second vote")
+				}
+			})
+		}
+		if nIdx == 0 {
+			c.Undecided("C20a: no assignment of ConflictVote.Index next to AllocateNewConflictVote found")
+		}
 		c.NotCovered("stake arithmetic, reward amounts, deadlines computed from parameters")
 	})
+}
+
+// sameTally: v is the accumulator a (a loop-header phi) or a value merged from it.
+func sameTally(v, a ssa.Value) bool {
+	if v == a {
+		return true
+	}
+	for _, lf := range phiLeaves(v) {
+		if lf == a {
+			return true
+		}
+		if add, _ := callOfValue(lf); add != nil && len(add.Call.Args) > 0 && add.Call.Args[0] == a {
+			return true
+		}
+	}
+	for _, lf := range phiLeaves(a) {
+		if lf == v {
+			return true
+		}
+	}
+	return false
 }
